@@ -29,7 +29,11 @@ DOCS = {
     "d3": '<rdf:RDF xmlns:rdf="http://www.w3.org/1999/02/22-rdf-syntax-ns#" xmlns:a="http://ex.org/" xmlns="http://ex.org/x#">'
           '<rdf:Description rdf:about="http://ex.org/s"><a:p rdf:resource="http://ex.org/x#o"/></rdf:Description></rdf:RDF>',
 }
-DOC_FORMAT = {"d1": "turtle", "d2": "turtle", "d3": "xml"}
+# the other parsers that bind the document's prefixes (each wraps or reaches the target graph in its own way)
+DOCS["d4"] = "@prefix a: <http://ex.org/x/> .\n@prefix ns1: <http://other.org/> .\n{ a:s ns1:p a:o . }\n"
+DOCS["d5"] = "@prefix b: <http://ex.org/x#> .\n@prefix : <http://ex.org/> .\nb:s :p b:o .\n"
+DOCS["d6"] = '{"@context": {"a": "http://other.org/", "b": "http://ex.org/x/"}, "@id": "a:s", "b:p": {"@id": "a:o"}}'
+DOC_FORMAT = {"d1": "turtle", "d2": "turtle", "d3": "xml", "d4": "trig", "d5": "n3", "d6": "json-ld"}
 
 
 class State:
@@ -70,6 +74,10 @@ class Spec:
             out.append(["parse", "d1"])
             out.append(["parse", "d2"])
             out.append(["parse", "d3"])
+            if self.store == "Memory":  # (the TriG, N3 and JSON-LD parsers ask for a context-aware store)
+                out.append(["parse", "d4"])
+                out.append(["parse", "d5"])
+                out.append(["parse", "d6"])
             out.append(["serialize"])
             out.append(["reset"])
         return out
